@@ -62,6 +62,12 @@ func (c14) Run(ctx *RunCtx) {
 			cp[k] = v
 		}
 		cp["cli"] = J{"path": fmt.Sprintf("hledger%d", n), "timeout": 1000 + n}
+		// the include limits change with every answer too, between values that never
+		// bind in these worlds (the trees are at most three files deep): no
+		// response depends on them, but every change runs the code that reacts to
+		// new limits while documents have unsaved buffers
+		base := p0["limits"].(J)["maxIncludeDepth"].(int)
+		cp["limits"] = J{"maxIncludeDepth": base + (n%3)*7, "maxFileSizeBytes": 10485760 - n%2}
 		return cp
 	}
 	init := InitParams(w.Root, c.Bool("folders"), cfgCap, J{"hledger": p0})
